@@ -80,18 +80,36 @@ pub fn draw_seektable(ch: &Choices) -> SeekTable {
     let n = ch.draw("meta.st.n", 6);
     let ph = ch.draw("meta.st.ph", 4);
     let mut pts = Vec::new();
-    let mut s = 0u64;
-    let mut o = 0u64;
+    // mostly from 0; sometimes at the top of the 64-bit fields (u64::MAX itself is the placeholder mark)
+    let mut s = *ch.pick("meta.st.base", &[0u64, 0, 0, 0, 1 << 36, u64::MAX - 2, u64::MAX - 7000]);
+    let mut o = *ch.pick("meta.st.obase", &[0u64, 0, 0, u64::MAX - 20000, u64::MAX]);
+    if s > 1 << 40 {
+        crate::monitor::probe("meta_seekpoint_near_u64_max");
+    }
     for i in 0..n {
         if i > 0 {
-            s += 1 + ch.draw("meta.st.ds", 5000);
-            o += ch.draw("meta.st.do", 9000);
+            let ns = s.saturating_add(1 + ch.draw("meta.st.ds", 5000));
+            if ns == s {
+                break;
+            }
+            s = ns;
+            o = o.saturating_add(ch.draw("meta.st.do", 9000));
         }
         pts.push(SeekPoint::Defined {
             sample_offset: s,
             byte_offset: o,
             frame_samples: *ch.pick("meta.st.fs", &[4096u16, 16, 1, 0, 65535]),
         });
+    }
+    // a defined point at u64::MAX would be indistinguishable from a placeholder once written: the
+    // constructors must refuse it (a table that holds one cannot be built), and then it is left out
+    if matches!(pts.last(), Some(SeekPoint::Defined { sample_offset: u64::MAX, .. })) {
+        crate::monitor::probe("meta_seekpoint_defined_at_placeholder_mark");
+        let r: Result<flac_codec::metadata::contiguous::Contiguous<{ SeekTable::MAX_POINTS }, SeekPoint>, _> = pts.clone().try_into();
+        if r.is_err() {
+            crate::monitor::probe("meta_seekpoint_defined_at_placeholder_mark_refused");
+            pts.pop();
+        }
     }
     for _ in 0..ph {
         pts.push(SeekPoint::Placeholder);
